@@ -18,21 +18,23 @@ type Gen struct {
 	feat map[string]int // feature histogram of the current case
 
 	// knobs
-	MaxDepth     int
-	Names        []string // alphabet of definition / property names
-	RefValidOnly bool     // only $refs that resolve
-	PlantRefs    float64  // probability of a $ref at a schema node
-	PlantPattern float64
-	PlantEnum    float64
-	Exotic       float64 // probability of the keywords swagger 2.0 does not support (anyOf, oneOf, not, patternProperties, nested definitions, additionalItems)
-	SimpleRefs   bool    // allow $ref inside simple-schema items / headers (invalid swagger, analyzable)
-	PathItemRefs bool
-	DeepChains   bool // plant a 70-level schema chain now and then (analyze stream only)
+	MaxDepth         int
+	Names            []string // alphabet of definition / property names
+	RefValidOnly     bool     // only $refs that resolve
+	PlantRefs        float64  // probability of a $ref at a schema node
+	PlantPattern     float64
+	PlantEnum        float64
+	Exotic           float64 // probability of the keywords swagger 2.0 does not support (anyOf, oneOf, not, patternProperties, nested definitions, additionalItems)
+	SimpleRefs       bool    // allow $ref inside simple-schema items / headers (invalid swagger, analyzable)
+	PathItemRefs     bool
+	PointerLikeNames bool // a definition named like the pointer to a property of another one (analyze stream only)
+	DeepChains       bool // plant a 70-level schema chain now and then (analyze stream only)
 
 	nonBodySchema bool
 	defNames      []string
 	paramNames    []string
 	respNames     []string
+	wantTemplates bool // a parameter $ref points into the untyped root extension x-templates
 }
 
 func NewGen(seed, stream uint64) *Gen {
@@ -422,6 +424,13 @@ func (g *Gen) ParamOrRef() M {
 				g.hit("paramref:nonparam-lookalike")
 				return M{"$ref": "#/securityDefinitions/apiKey"}
 			}
+			if g.p(0.25) {
+				// an object kept in an untyped part of the document (below a vendor extension): it resolves, to a plain
+				// map whose keys read like a parameter's, and it is no parameter
+				g.hit("paramref:nonparam-untyped")
+				g.wantTemplates = true
+				return M{"$ref": "#/x-templates/" + g.pick([]string{"paging", "nested/x-inner"})}
+			}
 			if len(g.defNames) > 0 {
 				return M{"$ref": "#/definitions/" + jsonPtrEscape(g.pick(g.defNames))}
 			}
@@ -651,6 +660,7 @@ func (g *Gen) Doc(o DocOpts) M {
 	g.defNames = g.distinctNames(g.n(6))
 	g.paramNames = nil
 	g.respNames = nil
+	g.wantTemplates = false
 	for i, k := 0, g.n(4); i < k; i++ {
 		g.paramNames = append(g.paramNames, fmt.Sprintf("%s%d", g.pick([]string{"idParam", "lim it", "p/q", "body~P"}), i))
 	}
@@ -663,6 +673,28 @@ func (g *Gen) Doc(o DocOpts) M {
 			defs[nm] = g.Schema(g.MaxDepth)
 		}
 		d["definitions"] = defs
+		if g.PointerLikeNames && g.p(0.12) {
+			// a definition whose name reads like the pointer to a sub-schema of another definition: "a" with a property "b"
+			// next to a definition named "a/properties/b" (two different places: #/definitions/a/properties/b and
+			// #/definitions/a~1properties~1b)
+		planted:
+			for _, nm := range g.defNames {
+				sch, _ := defs[nm].(M)
+				for _, kw := range []string{"properties", "patternProperties", "definitions"} {
+					props, _ := sch[kw].(M)
+					for _, pk := range sortedKeysM(props) {
+						defs[nm+"/"+kw+"/"+pk] = M{"type": "string", "pattern": "^twin$", "enum": []any{"twin"}}
+						g.hit("defname:pointer-like-twin")
+						break planted
+					}
+				}
+				if _, has := sch["items"].(M); has {
+					defs[nm+"/items"] = M{"allOf": []any{M{"type": "object"}}}
+					g.hit("defname:pointer-like-twin")
+					break planted
+				}
+			}
+		}
 	}
 	if g.DeepChains && g.p(0.04) {
 		// a schema nested far deeper than any fixture (70 hops), with a pattern, an enum and a $ref at the bottom
@@ -780,6 +812,12 @@ func (g *Gen) Doc(o DocOpts) M {
 		paths[pth] = pi
 	}
 	d["paths"] = paths
+	if g.wantTemplates {
+		d["x-templates"] = M{
+			"paging": M{"type": "integer", "description": "a page number", "name": "page", "in": "query"},
+			"nested": M{"x-inner": M{"type": "string", "format": "date"}},
+		}
+	}
 	return d
 }
 
